@@ -204,6 +204,9 @@ func (x *c13ctx) calleesOf(in ssa.Instruction) []*ssa.Function {
 		return []*ssa.Function{f}
 	}
 	if ci.Common().IsInvoke() {
+		if x.c == nil {
+			return nil
+		}
 		return x.c.implementations(ci)
 	}
 	// call through a local closure variable
